@@ -59,9 +59,12 @@ class Origins:
             for t in tg:
                 edges.setdefault(t, set()).update(srcs)
 
-        for n in walk_no_nested(self.f.node):
+        def visit(n, ctrl):
+            """ctrl: names in the branch / loop conditions governing this statement (control dependence)."""
+            if isinstance(n, (ast.FunctionDef, ast.AsyncFunctionDef, ast.ClassDef)) and n is not self.f.node:
+                return
             if isinstance(n, ast.Assign):
-                srcs = self.names_in(n.value)
+                srcs = self.names_in(n.value) | ctrl
                 for t in n.targets:
                     tg = self._targets(t)
                     extra = set()
@@ -69,29 +72,56 @@ class Origins:
                         extra = self.names_in(t.slice)
                     add(tg, srcs | extra)
             elif isinstance(n, ast.AnnAssign) and n.value is not None:
-                add(self._targets(n.target), self.names_in(n.value))
+                add(self._targets(n.target), self.names_in(n.value) | ctrl)
             elif isinstance(n, ast.AugAssign):
-                add(self._targets(n.target), self.names_in(n.value))
-            elif isinstance(n, (ast.For, ast.comprehension)):
-                add(self._targets(n.target), self.names_in(n.iter))
+                add(self._targets(n.target), self.names_in(n.value) | ctrl)
             elif isinstance(n, ast.NamedExpr):
-                add(self._targets(n.target), self.names_in(n.value))
+                add(self._targets(n.target), self.names_in(n.value) | ctrl)
+            elif isinstance(n, ast.comprehension):
+                add(self._targets(n.target), self.names_in(n.iter))
             elif isinstance(n, ast.With):
                 for it in n.items:
                     if it.optional_vars is not None:
-                        add(self._targets(it.optional_vars), self.names_in(it.context_expr))
+                        add(self._targets(it.optional_vars), self.names_in(it.context_expr) | ctrl)
             elif isinstance(n, ast.Expr) and isinstance(n.value, ast.Call):
-                # mutator calls: x.append(y), x.extend(y) make x depend on y
                 c = n.value
                 if isinstance(c.func, ast.Attribute) and c.func.attr in ("append", "extend", "insert", "update", "add"):
                     base = c.func.value
                     while isinstance(base, (ast.Subscript, ast.Attribute)):
                         base = base.value
                     if isinstance(base, ast.Name):
-                        srcs = set()
+                        srcs = set(ctrl)
                         for a in c.args:
                             srcs |= self.names_in(a)
                         add([base.id], srcs)
+            # recurse with updated control context
+            if isinstance(n, ast.If):
+                c2 = ctrl | self.names_in(n.test)
+                visit(n.test, ctrl)
+                for s in n.body + n.orelse:
+                    visit(s, c2)
+                return
+            if isinstance(n, (ast.For, ast.AsyncFor)):
+                add(self._targets(n.target), self.names_in(n.iter) | ctrl)
+                c2 = ctrl | self.names_in(n.iter)
+                for s in n.body + n.orelse:
+                    visit(s, c2)
+                return
+            if isinstance(n, ast.While):
+                c2 = ctrl | self.names_in(n.test)
+                for s in n.body + n.orelse:
+                    visit(s, c2)
+                return
+            if isinstance(n, ast.IfExp):
+                visit(n.test, ctrl)
+                visit(n.body, ctrl)
+                visit(n.orelse, ctrl)
+                return
+            for ch in ast.iter_child_nodes(n):
+                visit(ch, ctrl)
+
+        for st in self.f.node.body:
+            visit(st, set())
         # transitive closure
         self.deps = {k: set(v) for k, v in edges.items()}
         changed = True
